@@ -1,6 +1,7 @@
 package simenv
 
 import (
+	"os"
 	"context"
 	"io"
 	"time"
@@ -52,10 +53,15 @@ func (c *NetClient) next(method string) (callNo int, lat1, lat2 time.Duration, f
 		lat1 = time.Duration(h % uint64(c.Net.MaxLatency))
 		lat2 = time.Duration((h >> 20) % uint64(c.Net.MaxLatency))
 	}
+	if debugNet {
+		println("NET", key, callNo, int64(lat1), int64(lat2), int64(verifsim.Now().UnixNano()))
+	}
 	fault = c.Net.Faults[c.To.Node.Name+"/"+method+"/"+itoa(callNo)]
 	c.Net.Stats["call_"+method]++
 	return
 }
+
+var debugNet = os.Getenv("VERIF_DEBUG_NET") != ""
 
 func itoa(n int) string {
 	if n == 0 {
